@@ -783,6 +783,188 @@ def core_callers_rule(ctx, rid):
     return rr
 
 
+class _NestEval:
+    """Window interpreter for the nesting function: IntEval plus `while`, starred unpacking, stores into a dict,
+    dict.pop and itertools.product.  Everything else is an AnalysisError (exit 2)."""
+
+    def __init__(self):
+        from ..util import IntEval
+        self.ie = IntEval({}, on_call=self.call)
+        self.steps = 0
+
+    def call(self, e, ie, st):
+        import itertools
+        fn = norm(e.func)
+        if fn in ("itertools.product", "product") and not e.keywords:
+            args = []
+            for a_ in e.args:
+                if isinstance(a_, ast.Starred):
+                    args.extend(ie.ev(a_.value, st))
+                else:
+                    args.append(ie.ev(a_, st))
+            return list(itertools.product(*args))
+        if isinstance(e.func, ast.Attribute) and e.func.attr in ("pop", "get", "setdefault") and not e.keywords:
+            recv = ie.ev(e.func.value, st)
+            if isinstance(recv, dict):
+                return getattr(recv, e.func.attr)(*[ie.ev(a_, st) for a_ in e.args])
+        if isinstance(e.func, ast.Attribute) and e.func.attr in ("append", "extend", "insert", "pop", "reverse", "index") and not e.keywords:
+            recv = ie.ev(e.func.value, st)
+            if isinstance(recv, list):
+                return getattr(recv, e.func.attr)(*[ie.ev(a_, st) for a_ in e.args])
+        if fn in ("reversed", "enumerate", "zip", "dict") and not e.keywords:
+            return list({"reversed": reversed, "enumerate": enumerate, "zip": zip}[fn](*[ie.ev(a_, st) for a_ in e.args])) if fn != "dict" else dict(*[ie.ev(a_, st) for a_ in e.args])
+        return NotImplemented
+
+    def run(self, stmts, st):
+        for s in stmts:
+            self.steps += 1
+            if self.steps > 20000:
+                raise AnalysisError("the nesting function does not terminate on the window")
+            if isinstance(s, ast.While) and not s.orelse:
+                while self.ie.ev(s.test, st):
+                    self.steps += 1
+                    if self.steps > 20000:
+                        raise AnalysisError("the nesting function does not terminate on the window")
+                    r = self.run(s.body, st)
+                    if r[0] == "break":
+                        break
+                    if r[0] not in ("fall", "continue"):
+                        return r
+                continue
+            if isinstance(s, ast.For) and not s.orelse:
+                brk = False
+                for item in list(self.ie.ev(s.iter, st)):
+                    self._bind(s.target, item, st)
+                    r = self.run(s.body, st)
+                    if r[0] == "break":
+                        break
+                    if r[0] not in ("fall", "continue"):
+                        return r
+                continue
+            if isinstance(s, ast.If):
+                r = self.run(s.body if self.ie.ev(s.test, st) else s.orelse, st)
+                if r[0] != "fall":
+                    return r
+                continue
+            if isinstance(s, ast.Assign) and len(s.targets) == 1:
+                self._bind(s.targets[0], self.ie.ev(s.value, st), st)
+                continue
+            if isinstance(s, ast.Return):
+                return ("return", self.ie.ev(s.value, st) if s.value is not None else None)
+            if isinstance(s, ast.Break):
+                return ("break", None)
+            if isinstance(s, ast.Continue):
+                return ("continue", None)
+            if isinstance(s, ast.Pass) or (isinstance(s, ast.Expr) and isinstance(s.value, ast.Constant)):
+                continue
+            if isinstance(s, ast.Expr) and isinstance(s.value, ast.Call):
+                self.ie.ev(s.value, st)
+                continue
+            if isinstance(s, ast.Delete) and all(isinstance(t_, ast.Subscript) for t_ in s.targets):
+                for t_ in s.targets:
+                    del self.ie.ev(t_.value, st)[self.ie.ev(t_.slice, st)]
+                continue
+            raise AnalysisError("idiom changed: statement `%s` of the nesting function is not modelled" % norm(s)[:60])
+        return ("fall", None)
+
+    def _bind(self, t, v, st):
+        if isinstance(t, ast.Name):
+            st[t.id] = v
+        elif isinstance(t, ast.Subscript) and not isinstance(t.slice, ast.Slice):
+            base = self.ie.ev(t.value, st)
+            if not isinstance(base, (dict, list)):
+                raise AnalysisError("idiom changed: store into `%s`" % norm(t))
+            base[self.ie.ev(t.slice, st)] = v
+        elif isinstance(t, (ast.Tuple, ast.List)):
+            v = list(v)
+            star = [i for i, x in enumerate(t.elts) if isinstance(x, ast.Starred)]
+            if not star:
+                if len(v) != len(t.elts):
+                    raise ValueError("unpack")
+                for tt, vv in zip(t.elts, v):
+                    self._bind(tt, vv, st)
+            else:
+                need(len(star) == 1, "idiom changed: unpacking `%s`" % norm(t))
+                k = star[0]
+                after = len(t.elts) - k - 1
+                if len(v) < len(t.elts) - 1:
+                    raise ValueError("unpack")
+                for tt, vv in zip(t.elts[:k], v[:k]):
+                    self._bind(tt, vv, st)
+                self._bind(t.elts[k].value, v[k:len(v) - after], st)
+                for tt, vv in zip(t.elts[k + 1:], v[len(v) - after:] if after else []):
+                    self._bind(tt, vv, st)
+        else:
+            raise AnalysisError("idiom changed: assignment target `%s`" % norm(t))
+
+
+def nested_placement_rule(ctx, rid, missing):
+    """The function that nests the flat {location: result} mapping is interpreted on a window of grid shapes (1-3
+    arguments, 1-3 values each; with ``missing`` every subset pattern of absent locations from a fixed family): the
+    returned nested tuple must hold, at [i][j][k], the result stored for (values_0[i], values_1[j], values_2[k]) --
+    or the placeholder when that location is absent.  Decides the index arithmetic of _unflatten on the window."""
+    import itertools
+    rr = ctx.rule(rid, ("nested placement with absent locations: slot [i][j].. holds the result of exactly (v_i, v_j, ..) or the placeholder" if missing else
+                        "nested placement: slot [i][j].. of the returned tuple holds the result of exactly (v_i, v_j, ..)") + " (window: 1-3 arguments x 1-3 values)", floor=30)
+    uf = ctx.prog.need_func(CR + "._unflatten")
+    ctx.touch(uf)
+    pos = list(uf.positional)
+    need(2 <= len(pos) <= 3 and not uf.node.args.vararg and not uf.node.args.kwarg, "idiom changed: parameters of _unflatten (%s)" % ", ".join(pos))
+    defaults = uf.node.args.defaults
+    if missing:
+        need(len(pos) == 3, "idiom changed: _unflatten takes no placeholder")
+    else:
+        need(len(pos) == 2 or (len(defaults) >= 1), "idiom changed: the placeholder of _unflatten has no default but the full-grid call passes none")
+
+    def expect(prefix, rest, store, ph):
+        if not rest:
+            return store.get(prefix, ph)
+        return tuple(expect(prefix + (v,), rest[1:], store, ph) for v in rest[0])
+
+    first = None
+    n_ok = 0
+    for nargs in (1, 2, 3):
+        for sizes in itertools.product((1, 2, 3), repeat=nargs):
+            # distinct labels per argument, the same labels in different arguments on purpose (a transposition must show)
+            vals = tuple(tuple(("v", i) if a_ % 2 == 0 else i for i in range(n_)) for a_, n_ in enumerate(sizes))
+            locs = list(itertools.product(*vals))
+            patterns = [()]
+            if missing:
+                patterns = [tuple(range(0, len(locs), 2)), tuple(range(1, len(locs), 2)), tuple(range(len(locs) - 1)), (0,) if len(locs) > 1 else ()]
+            for absent in patterns:
+                store = {l_: ("R", l_) for i_, l_ in enumerate(locs) if i_ not in absent}
+                want = expect((), vals, store, "PLACEHOLDER" if missing else None)
+                st = {pos[0]: dict(store), pos[1]: vals}
+                if len(pos) == 3:
+                    if missing:
+                        st[pos[2]] = "PLACEHOLDER"
+                    else:
+                        d_ = defaults[-1]
+                        need(isinstance(d_, ast.Constant), "idiom changed: default placeholder of _unflatten")
+                        st[pos[2]] = d_.value
+                ne = _NestEval()
+                try:
+                    r = ne.run(uf.node.body, st)
+                    got = r[1] if r[0] == "return" else ("<no return>",)
+                    if isinstance(got, list):
+                        got = tuple(got)
+                except (KeyError, IndexError, ValueError, TypeError) as e_:
+                    got = ("<%s %s>" % (type(e_).__name__, str(e_)[:40]),)
+                if got == want:
+                    n_ok += 1
+                elif first is None:
+                    first = (vals, absent, want, got)
+    if first is not None:
+        vals, absent, want, got = first
+        rr.bad(ctx.finding(rid, uf, uf.node, "_unflatten misplaces results: for the grid %s%s the nested result is %s, expected %s -- a slot holds another combination's value (or the call fails)" % (
+            "x".join(str(len(v)) for v in vals), (" with locations %s absent" % list(absent)) if absent else "", str(got)[:160], str(want)[:160]),
+            construct="nested-placement" + ("-missing" if missing else "")), "placement")
+    else:
+        rr.ok("%d window grids%s: every slot holds its own combination's result" % (n_ok, " x absence patterns" if missing else ""))
+        rr.instances += n_ok - 1
+    return rr
+
+
 # ====================================================================== C02
 def disjoint_gate_rule(ctx, rid):
     """C02.R1: an argument in both cases and combos is rejected before
